@@ -38,7 +38,7 @@ var poolWide = append(append([]string{}, pool10...),
 	"(for [1 2 3] (break))", "(for a: [1 2 3] (continue a:))", "(for a: [1 2 3] (continue b:))",
 	"(for (quote a) [(def i 0) (< i 1) (set i 2)] (break (quote a)))", "(fn [x] x)", "(fn [1] x)", "(quote \\ a)",
 	"(quote a b)", "[(a \\ 1)]", "^[~a ~@b]", "^(a ~(and))", "(let [a 1] a)", "(let [a] a)", "(mdef (a) b 1)",
-	"(mdef (quote a) b 1)", "(include [])", "(defn a [a] (a (and)))", "(defn a [x] (a 1))", "/*c*/", "//c\n", "$", "#a", "?a", "a?")
+	"(mdef (quote a) b 1)", "(include [])", "(defn a [a] (a (and)))", "(defn a [x] (a 1))", "/*c*/", "//c\n", "$", "#a", "?a", "a?", "[len 1]", "[(fn [x] x)]", "(hash k: len)")
 
 func formHeads(env *zygo.Zlisp) (heads []string, skipped map[string]string) {
 	seen := map[string]bool{}
@@ -549,4 +549,196 @@ func buildGensym(s *listStream, k *int, tier string) {
 		*k++
 		s.add(inst("(def nK (symnum (gensym))) (for [(def iK 2) (< iK 40) (set iK (+ iK 1))] (str2sym (concat \""+c.prefix+"\" (str (+ nK iK)))))")+" (eval (quote "+inst(c.form)+"))", "", "programs:gensym-spelled")
 	}
+}
+
+// ---- declarations with types: typed functions called in every way, structs printed in every way,
+// selectors (index, slice, field) read and assigned in every way ---------------------------------------
+
+var typedParams = []struct {
+	decl  string
+	names []string
+}{
+	{"", nil},
+	{"a:int64", []string{"a"}},
+	{"a:int64 b:string", []string{"a", "b"}},
+	{"a:int64 b:string c:float64", []string{"a", "b", "c"}},
+}
+
+func buildTyped(tier string) *listStream {
+	s := &listStream{name: "typed"}
+	k := 0
+	next := func() string { k++; return fmt.Sprintf("%d", k) }
+
+	// (1) typed functions: positional and by-name calls of every shape
+	vals := map[string][]string{"a": {"1", "\"x\""}, "b": {"\"hi\"", "2"}, "c": {"2.5", "nil"}, "z": {"5", "[1]"}}
+	for _, tp := range typedParams {
+		for _, ret := range []string{"", "n:int64", "n:int64 err:error"} {
+			for _, body := range []string{"(return 1)", "1"} {
+				if ret == "" && body == "(return 1)" {
+					body = "(return)"
+				}
+				n := len(tp.names)
+				var calls, shapes []string
+				tyCode := map[string]string{"1": "I", "5": "I", "2": "I", "\"x\"": "S", "\"hi\"": "S", "2.5": "F", "nil": "O", "[1]": "O"}
+				nameID := map[string]string{"a": "1", "b": "2", "c": "3", "z": "9"}
+				// positional: 0 .. n+1 arguments, well typed and ill typed
+				for cnt := 0; cnt <= n+1; cnt++ {
+					for v := 0; v < 2; v++ {
+						var as []string
+						for i := 0; i < cnt; i++ {
+							nm := "z"
+							if i < n {
+								nm = tp.names[i]
+							}
+							as = append(as, vals[nm][v])
+						}
+						calls = append(calls, strings.Join(as, " "))
+						var sh []string
+						for _, a := range as {
+							sh = append(sh, "V"+tyCode[a])
+						}
+						shapes = append(shapes, strings.Join(sh, " "))
+					}
+				}
+				// by name: every sequence of up to n+1 name/value pairs over the parameter names and an unknown name
+				names := append(append([]string{}, tp.names...), "z")
+				var seqs [][]string
+				seqs = append(seqs, nil)
+				frontier := [][]string{nil}
+				for l := 1; l <= n+1 && l <= 3; l++ {
+					var nf [][]string
+					for _, pre := range frontier {
+						for _, nm := range names {
+							nf = append(nf, append(append([]string{}, pre...), nm))
+						}
+					}
+					seqs = append(seqs, nf...)
+					frontier = nf
+				}
+				for _, sq := range seqs {
+					for v := 0; v < 2; v++ {
+						var as, sh []string
+						for _, nm := range sq {
+							as = append(as, nm+":"+vals[nm][v])
+							sh = append(sh, "N"+nameID[nm], "V"+tyCode[vals[nm][v]])
+						}
+						calls = append(calls, strings.Join(as, " "))
+						shapes = append(shapes, strings.Join(sh, " "))
+						if len(sq) > 0 && v == 0 { // positional first, then named
+							calls = append(calls, "1 "+strings.Join(as, " "))
+							shapes = append(shapes, "VI "+strings.Join(sh, " "))
+						}
+					}
+				}
+				if tier != "thorough" && (ret == "n:int64 err:error" || body == "1") {
+					// quick: the full call set for one return list / body, a sample for the others
+					calls = calls[:len(calls)/4+1]
+				}
+				var pcode []string
+				for _, f := range strings.Fields(tp.decl) {
+					q := strings.SplitN(f, ":", 2)
+					pcode = append(pcode, nameID[q[0]]+map[string]string{"int64": "I", "string": "S", "float64": "F"}[q[1]])
+				}
+				seen := map[string]bool{}
+				for ci, c := range calls {
+					if seen[c] {
+						continue
+					}
+					seen[c] = true
+					id := next()
+					decl := "(func t" + id + " [" + tp.decl + "] [" + ret + "] " + body + ")"
+					shape := ""
+					if body != "1" { // the model covers the call check; a body that returns through (return ..) adds no error of its own
+						shape = strings.TrimSpace("F " + strings.Join(pcode, " ") + " ; " + shapes[ci])
+					}
+					s.add(decl+" (t"+id+" "+c+")", shape, "typed:func-call")
+				}
+			}
+		}
+	}
+
+	// (2) structs with field names of every width in bytes and characters, printed in every way
+	fieldNames := []string{"x", "Name", "LongFieldNameHere", "Größe", "Öl", "日本語", "😀x", "é"}
+	structNames := []string{"S", "Maß", "型"}
+	var decls [][2]string // struct name, declaration
+	for si, sn := range structNames {
+		for i, f1 := range fieldNames {
+			id := next()
+			name := sn + id
+			decls = append(decls, [2]string{name, "(struct " + name + " [(field " + f1 + ": int64)])"})
+			if si > 0 && tier != "thorough" {
+				continue
+			}
+			for j, f2 := range fieldNames {
+				if i == j {
+					continue
+				}
+				id := next()
+				name := sn + id
+				decls = append(decls, [2]string{name, "(struct " + name + " [(field " + f1 + ": int64) (field " + f2 + ": string e:1)])"})
+			}
+		}
+	}
+	printers := []string{
+		"",
+		"(str NAME)",
+		"(def v (NAME)) (str v)",
+		"(def v (NAME)) v",
+		"(defn mkID [] (let [t NAME] (fn [] 7))) ((mkID))",
+		"(func wID [m:NAME] [n:int64] (return 1)) (wID 5)",
+		"(func wID [m:NAME] [n:int64] (return 1)) (wID (NAME))",
+		"(var pv (* NAME)) (str pv)",
+		"(NAME nosuchfield:1)",
+		"(def v (NAME)) (json v)",
+		"(def v (NAME)) (togo v)",
+		"(let [t NAME] (str t))",
+		"(def h (hash k: NAME)) (str h)",
+		"(def v (NAME)) (v = 12)",
+		"[NAME (NAME)]",
+	}
+	for di, d := range decls {
+		for pi, pr := range printers {
+			if tier != "thorough" && di%3 != 0 && pi > 5 {
+				continue
+			}
+			id := next()
+			p := strings.ReplaceAll(strings.ReplaceAll(pr, "NAME", d[0]), "ID", id)
+			s.add(d[1]+" "+p, "", "typed:struct-print")
+			s.add(d[1]+"\n"+p, "", "typed:struct-print") // one line each: the REPL echoes the declaration's value
+		}
+	}
+
+	// (3) selectors read and assigned
+	setup := "(def a [3 4 5 6]) (def h (hash k: 1 m: [1 2])) (def s \"hello\") (def i 1) (def aa [[1 2] [3 4]])"
+	targets := []string{"a[0]", "a[i]", "a[1:2]", "a[:2]", "a[2:]", "a[:]", "a[-1]", "a[9]", "a[0:9]", "a[\"x\"]", "a[1.5]", "a[i:]", "a[:i]",
+		"aa[0][1]", "aa[0][:1]", "aa[:1][0]", "h.k", "h.m[0]", "h.m[:1]", "h.nokey", "s[0]", "s[1:2]", "s[:2]", "a[nil]", "a[]", "a[: :]", "a[1:2:3]", "h[k:]"}
+	ops := []string{"", " = 9", " = [7 8]", " := 9", " += 1", " ++", " = s", " , i = 1 , 2", " == 1"}
+	for _, t := range targets {
+		for _, op := range ops {
+			s.add(setup+" {"+t+op+"}", "", "typed:selector")
+			if op == "" || op == " = 9" {
+				s.add(setup+"\n"+t+op, "", "typed:selector") // a bare REPL line
+				s.add(setup+" (def f"+next()+" (fn [] {"+t+op+"})) (f"+fmt.Sprintf("%d", k)+")", "", "typed:selector")
+			}
+		}
+	}
+	for _, sel := range []string{"[0]", "[: 1]", "[1 :]", "[:]", "[1 : 2]", "[9]", "[\"x\"]", "[]", "[: :]", "[nil]", "[0 1]"} {
+		for _, v := range []string{"0", "[7 8]", "nil"} {
+			s.add(setup+" (set (arrayidx a "+sel+") "+v+")", "", "typed:selector")
+			s.add(setup+" (def (arrayidx a "+sel+") "+v+")", "", "typed:selector")
+			s.add(setup+" ((arrayidx a "+sel+") = "+v+")", "", "typed:selector")
+		}
+		s.add(setup+" (arrayidx a "+sel+")", "", "typed:selector")
+		s.add(setup+" (str (arrayidx a "+sel+"))", "", "typed:selector")
+		s.add(setup+" (hashidx h "+sel+")", "", "typed:selector")
+		s.add(setup+" (set (hashidx h "+sel+") 1)", "", "typed:selector")
+	}
+	// (4) typed variables assigned values of every kind
+	for _, ty := range []string{"int64", "string", "float64", "bool", "(* int64)", "[]int64", "error"} {
+		for _, v := range []string{"1", "\"s\"", "2.5", "true", "nil", "[1]", "(hash)", "(fn [] 1)"} {
+			id := next()
+			s.add("(var v"+id+" "+ty+") (v"+id+" = "+v+") v"+id, "", "typed:var")
+		}
+	}
+	return s
 }
